@@ -54,11 +54,21 @@ pub fn perform(op: &HistOp) -> Result<u64, String> {
     match op {
         HistOp::Fmt { hi, lo, tr, plus, prec, fail_at_chunk } => {
             let x = raw_twofloat(*hi, *lo);
-            let plan = SinkPlan { fail_at_chunk: *fail_at_chunk, capacity: None, sticky: true };
+            let plan = SinkPlan { fail_at_chunk: *fail_at_chunk, capacity: None, sticky: true, reentrant_hi: None };
             let mut sink = SimSink::new(&plan);
             let r = guarded(|| fmtleg::render_tf(&mut sink, &x, *tr, *plus, *prec))?;
             let mut h = sink.log;
             h.byte(r.is_ok() as u8);
+            // a completed history rendering is held to the same content oracle as a checked one
+            if r.is_ok() && fail_at_chunk.is_none() && ref_valid_bits(*hi, *lo) {
+                let c = fmtleg::FmtCase { hi: *hi, lo: *lo, tr: *tr, plus: *plus, prec: *prec, sink: SinkPlan::default(), io: None, flags: None };
+                let mut v = Vec::new();
+                let mut probes = Counters::default();
+                fmtleg::check_content(&c, &sink.data, &mut v, &mut probes);
+                if let Some(first) = v.into_iter().next() {
+                    return Err(format!("HISTORY-VIOLATION {}: {}", first.class, first.detail));
+                }
+            }
             Ok(h.finish())
         }
         HistOp::Ser { hi, lo, fail_at } => {
